@@ -119,6 +119,8 @@ func (p *c11nPublisher) PublishRevocation(_ context.Context, r credential.Revoca
 	return nil
 }
 
+const c11nHolder = "did:nuts:C11holder"
+
 const (
 	c11nOwnerA = iota
 	c11nOwnerB
@@ -183,6 +185,18 @@ func c11nFixture(t *testing.T) *c11nFix {
 					f.kid2[i] = kid
 				}
 			}
+		}
+		{ // the holder (subject of every credential; signs presentations)
+			kid := c11nHolder + "#key-1"
+			_, pub, err := f.keys.New(f.ctx, crypto.StringNamingFunc(kid))
+			if err != nil {
+				t.Fatalf("HARNESS: key: %v", err)
+			}
+			vm, err := did.NewVerificationMethod(did.MustParseDIDURL(kid), ssi.JsonWebKey2020, did.MustParseDID(c11nHolder), pub)
+			if err != nil {
+				t.Fatalf("HARNESS: vm: %v", err)
+			}
+			f.res.keys[c11nHolder] = append(f.res.keys[c11nHolder], c11nKey{vm: vm, from: f.t0})
 		}
 		// attackers whose DID is a near miss of an issuer DID: suffix, extra segment, other case
 		f.near = map[string]string{}
@@ -255,11 +269,24 @@ type c11nOp struct {
 	C   uint32            `json:"c,omitempty"` // credential selector
 	L   bool              `json:"l,omitempty"` // take the most recently issued credential
 	V   string            `json:"v,omitempty"` // reg: variant; reopen: restart | restore
+	T   string            `json:"t,omitempty"` // verify: reference time (validAt), see c11nRefTimes; "" = nil
+	P   bool              `json:"p,omitempty"` // verify: through VerifyVP with a presentation of the holder carrying the credential
 	Mut *jsonmut.Mutation `json:"mut,omitempty"`
 }
 
 type c11nCase struct {
 	Ops []c11nOp `json:"ops"`
+}
+
+// reference times for a verification: nil, now, the credential's issuance, half-way between issuance and the (earliest
+// accepted) revocation's date, around that date, long before the credential existed, a year ahead (no expiry: valid)
+var c11nRefTimes = []string{"", "", "now", "issuance", "mid", "rev-10s", "rev-6s", "rev-4s", "rev", "rev+1s", "far-past", "far-future"}
+
+func c11nVerifyOp(t *rapid.T, op c11nOp) c11nOp {
+	op.K = "verify"
+	op.T = rapid.SampledFrom(c11nRefTimes).Draw(t, "refTime")
+	op.P = rapid.IntRange(0, 3).Draw(t, "viaVP") == 0
+	return op
 }
 
 var c11nReopen = []string{"restart", "restore", "restore", "backup-lost", "backup-lost"}
@@ -291,7 +318,7 @@ func c11nGen(t *rapid.T) c11nCase {
 			mut(t, &op)
 			return []c11nOp{op}
 		case "verify":
-			return []c11nOp{{K: "verify", C: rapid.Uint32().Draw(t, "c")}}
+			return []c11nOp{c11nVerifyOp(t, c11nOp{C: rapid.Uint32().Draw(t, "c")})}
 		case "reopen":
 			return []c11nOp{{K: "reopen", V: rapid.SampledFrom(c11nReopen).Draw(t, "v")}}
 		case "sc-storage-history":
@@ -302,15 +329,15 @@ func c11nGen(t *rapid.T) c11nCase {
 			if rapid.Bool().Draw(t, "more") {
 				ops = append(ops, c11nOp{K: "issue", I: rapid.IntRange(0, 1).Draw(t, "i")}, c11nOp{K: "reg", L: true, V: "genuine-now"})
 			}
-			return append(ops, c11nOp{K: "reopen", V: rapid.SampledFrom(c11nReopen).Draw(t, "v2")}, c11nOp{K: "verify", C: sel})
+			return append(ops, c11nOp{K: "reopen", V: rapid.SampledFrom(c11nReopen).Draw(t, "v2")}, c11nVerifyOp(t, c11nOp{C: sel}))
 		case "sc-before":
 			// the revocation reaches the node before the credential is seen there for the first time
 			return []c11nOp{{K: "issue", I: rapid.IntRange(0, 1).Draw(t, "i")},
-				{K: "reg", L: true, V: rapid.SampledFrom(c11nGenuine).Draw(t, "v")}, {K: "verify", L: true}}
+				{K: "reg", L: true, V: rapid.SampledFrom(c11nGenuine).Draw(t, "v")}, c11nVerifyOp(t, c11nOp{L: true}), c11nVerifyOp(t, c11nOp{L: true})}
 		default: // sc-forged-then-verify
 			op := c11nOp{K: "reg", C: rapid.Uint32().Draw(t, "c"), V: rapid.SampledFrom(c11nForged).Draw(t, "v")}
 			mut(t, &op)
-			return []c11nOp{op, {K: "verify", C: op.C}}
+			return []c11nOp{op, c11nVerifyOp(t, c11nOp{C: op.C})}
 		}
 	})
 	for _, st := range rapid.SliceOfN(step, 2, 14).Draw(t, "steps") {
@@ -323,8 +350,9 @@ func c11nGen(t *rapid.T) c11nCase {
 }
 
 type c11nCred struct {
-	vc    vc.VerifiableCredential
-	owner int
+	vc       vc.VerifiableCredential
+	owner    int
+	revDates []time.Time // dates stated by the accepted revocations of this credential
 }
 
 type c11nRun struct {
@@ -375,7 +403,7 @@ func (r *c11nRun) opIssue(op c11nOp) {
 		Context:           []ssi.URI{ssi.MustParseURI("https://nuts.nl/credentials/v1")},
 		Type:              []ssi.URI{ssi.MustParseURI("NutsEmployeeCredential")},
 		Issuer:            f.dids[owner].URI(),
-		CredentialSubject: []any{map[string]any{"id": "did:nuts:C11holder"}},
+		CredentialSubject: []any{map[string]any{"id": c11nHolder}},
 	}
 	cred, err := f.iss.Issue(f.ctx, tmpl, issuer.CredentialOptions{})
 	r.x.NoErr(err, "Issue")
